@@ -876,8 +876,35 @@ func (x *c15run) one(rec *c15rec, cmd string, flags []string, locstr string, r *
 		// observed cut positions (input coordinates).
 		cuts := map[int]bool{}
 		pos := start
+		// located positions as numbers: 0 and L are two of them, although they
+		// are one place on a circular record (gts split then cuts at both and
+		// prints an empty piece between them, which the statement allows).
+		rawAcc := map[int]bool{}
+		for i := range regs {
+			h, t := regs[i].Head(), regs[i].Tail()
+			rawAcc[h] = true
+			if t < h {
+				rawAcc[t] = true
+			}
+		}
+		bothEnds := rawAcc[0] && rawAcc[L]
 		for i, n := range lens {
+			if rec.circ && bothEnds && L > 0 && pos%L == 0 && cuts[0] {
+				pos += n
+				continue
+			}
 			if i > 0 || rec.circ {
+				// "every distinct located position": one cut per position, so no
+				// two pieces begin at the same place (a linear record's last
+				// piece may begin at L, which is not position 0).
+				if L > 0 && len(lens) > 1 && ((rec.circ && cuts[pos%L]) || (!rec.circ && pos < L && cuts[pos])) {
+					viol("cut-twice-at-one-position", fmt.Sprintf("one cut at %d", pos%L), fmt.Sprintf("piece lengths %v", lens))
+					return
+				}
+				if !rec.circ && pos == L && i > 0 && lens[i-1] == 0 && i-1 > 0 {
+					viol("cut-twice-at-one-position", fmt.Sprintf("one cut at %d", pos), fmt.Sprintf("piece lengths %v", lens))
+					return
+				}
 				cuts[pos%L] = true
 			}
 			pos += n
@@ -1288,6 +1315,12 @@ func c15Drive(c *fw.Ctx, cmds []c15cmd, N int) {
 			} else {
 				loc = fmt.Sprintf("%d@$+%d", len(rec.bytes)-cr.Intn(5), 6+cr.Intn(10))
 			}
+		}
+		if k.cmd == "split" && !rec.corpus && cr.Intn(3) == 0 {
+			// every labelled feature at once, cut at one of its ends: many
+			// sites, positions that repeat without being neighbours in table
+			// order.
+			loc = "/label=^h" + []string{"@$", "@^", "@$-1", "@^+1", ""}[cr.Intn(5)]
 		}
 		x.one(rec, k.cmd, k.flags, loc, cr)
 		if (it/len(cmds))%3 == 0 && !rec.corpus {
